@@ -4,7 +4,7 @@ Import ListNotations.
 From Chiri Require Import Base.Bytes Base.Res Model.Tokenizer Model.TagParser Model.Finders Model.Markers
      Model.Format Model.Clean Spec.Scan Spec.Rename Spec.Simulation
      Proofs.TokenizerProofs Proofs.RenameProofs Proofs.C06Proofs Proofs.SimFlat Proofs.SimStrings
-     Proofs.SimFront Proofs.SimClean.
+     Model.ListRender Proofs.SimFront Proofs.SimClean Proofs.SimList.
 
 (** The full statement for delimiters (kept visible): one abstract document (texts and tag bodies,
     Spec/Rename.v) rendered with two spellings of the delimiters cleans to the two renderings of ONE
@@ -50,10 +50,46 @@ Example C18_two_spellings_example :
   clean ex_cfg [123;123]%N [125;125]%N (render [123;123]%N [125;125]%N ex_doc) = Ok (rs [123;123]%N [125;125]%N ex_out).
 Proof. exact a_clean_example. Qed.
 
+(** PROVED for the listing functions (list and list_all, no [de_nb] needed): the line ranges and
+    statuses of the list items are a function [a_item_keys] / [a_item_keys_all] of the configuration
+    and the abstract document only (Proofs/SimList.v: [merge_all] commutes with monotone position
+    maps; line numbers of a rendering count the line-break symbols, the delimiters contain none). *)
+Theorem C18_list_line_ranges_are_abstract :
+  forall cfg ds de doc,
+    good_delims ds de -> good_doc ds de doc -> bodies_ok doc ->
+    (exists items,
+       (ms <- list_markers cfg ds de (render ds de doc) ;; build_list (render ds de doc) ms) = Ok items /\
+       map item_key items = a_item_keys cfg doc) /\
+    (exists items,
+       (ms <- markers_all_of cfg ds de (render ds de doc) ;; build_list (render ds de doc) ms) = Ok items /\
+       map item_key items = a_item_keys_all cfg doc).
+Proof. intros; split; [apply list_rendered | apply list_all_rendered]; assumption. Qed.
+Print Assumptions C18_list_line_ranges_are_abstract.
+
+Theorem C18_list_two_spellings :
+  forall cfg dsA deA dsB deB doc,
+    good_delims dsA deA -> good_delims dsB deB -> good_doc dsA deA doc -> good_doc dsB deB doc ->
+    bodies_ok doc ->
+    exists itemsA itemsB itemsA' itemsB',
+      (ms <- list_markers cfg dsA deA (render dsA deA doc) ;; build_list (render dsA deA doc) ms) = Ok itemsA /\
+      (ms <- list_markers cfg dsB deB (render dsB deB doc) ;; build_list (render dsB deB doc) ms) = Ok itemsB /\
+      map item_key itemsA = map item_key itemsB /\
+      (ms <- markers_all_of cfg dsA deA (render dsA deA doc) ;; build_list (render dsA deA doc) ms) = Ok itemsA' /\
+      (ms <- markers_all_of cfg dsB deB (render dsB deB doc) ;; build_list (render dsB deB doc) ms) = Ok itemsB' /\
+      map item_key itemsA' = map item_key itemsB'.
+Proof. exact list_two_spellings. Qed.
+Print Assumptions C18_list_two_spellings.
+
+(** Non-vacuity: a ready unwrap-block and a pending element; keys (first line, last line, ready). *)
+Example C18_list_example :
+  a_item_keys ex_cfg ex_doc2 = [(2, 3, true); (5, 6, true)] /\
+  a_item_keys_all ex_cfg ex_doc2 = [(2, 3, true); (5, 6, true); (7, 8, false)].
+Proof. split; vm_compute; reflexivity. Qed.
+
 (** What is NOT proved: (1) the case of an end delimiter that begins with a blank when no line of
-    blanks runs into it ([dedent_ok] rather than [de_nb]); (2) the same statement for the listing
-    functions (list / list_all share the front end, the collection and the merge, which are covered
-    by the simulation, but their line-range rendering is not); (3) respelling of the TAG NAMES:
+    blanks runs into it ([dedent_ok] rather than [de_nb]); (2) for the listing functions only the
+    line ranges and statuses are compared (as the property says), not the highlighted text of the
+    items; (3) respelling of the TAG NAMES:
     rewriting the configured tag names in the configuration and in every tag consistently (to names
     that do not otherwise occur) yields the correspondingly rewritten output.  For (3) the proved
     part is that a parsed tag depends on its body only and that names enter the decision only
